@@ -9,4 +9,4 @@ Extraction "m_engine.ml" Engine.run Engine.apply_op Engine.drain Engine.start En
 Extraction "m_retry.ml" Retry.rrun Retry.rstep Retry.rinit.
 Extraction "m_script.ml" Script.fill_string Script.get_expr Script.to_js Script.of_js.
 Extraction "m_chan.ml" Chan.crun Chan.cstep Chan.glob Chan.hub0 Chan.hstep Chan.hrun.
-Extraction "m_multi.ml" Multi.call_check Multi.forced_check Multi.ret_check.
+Extraction "m_multi.ml" Multi.call_check Multi.forced_check Multi.caught_check Multi.ret_check.
